@@ -9,14 +9,14 @@ CHECKS = {
     "C13": dict(
         engine="simstore-io", category="fault_enumeration", design_ref="DESIGN.md 5.1",
         technique="deterministic simulation: fault-injecting Read/Write stubs under recreated_zlib_chunks, complete single-fault enumeration per workload plus seeded multi-fault plans, oracle over the recorded I/O history, replayable explicit plans",
-        text="Every container offset and every output offset of each generated workload receives a one-shot hard I/O error (8 error kinds x 4 ways of constructing the io::Error: message, bare kind, raw OS error, wrapped PreflateError) under several fragmentation modes (complete enumeration for containers up to 16 KiB), plus seeded multi-fault plans mixing EINTR bursts, Ok(0) writes, premature EOF and hard errors with random read/write fragmentation, half of them within 2 bytes of a structural boundary. The destination implements nothing but write(). The oracle (same output under any fragmentation; Err + prefix of the original after an I/O error; no panic; bounded progress) is evaluated on the recorded history of accepted bytes. Enumeration is complete per workload for single faults; workloads and multi-fault plans are sampled from a seed, so a clean run is strong evidence, not proof.",
+        text="Every container offset and every output offset of each generated workload receives a one-shot hard I/O error (8 error kinds x 4 ways of constructing the io::Error: message, bare kind, raw OS error, wrapped PreflateError) under several fragmentation modes (complete enumeration for containers up to 16 KiB), plus seeded multi-fault plans mixing EINTR bursts, Ok(0) writes, premature EOF and hard errors with random read/write fragmentation, half of them within 2 bytes of a structural boundary. The destination implements nothing but write(). Faults are one-shot or sticky (device stays broken / stays full). After a faulted run a fault-free call on the same thread must reproduce the file (first time per abstract fault state, then 1 in 16). The oracle (same output under any fragmentation; Err + prefix of the original after an I/O error; no panic; bounded progress) is evaluated on the recorded history of accepted bytes. Enumeration is complete per workload for single faults; workloads and multi-fault plans are sampled from a seed, so a clean run is strong evidence, not proof.",
         note="Trusted: the SimReader/SimWriter stubs, the harness's byte comparison, the workload generator (only as a source of files). Workloads whose fault-free round trip fails on the tree are skipped (C01 territory). Release profile as shipped."),
 }
 
 CHECKS["C11"] = dict(
     engine="simstore-blob", category="fault_enumeration", design_ref="DESIGN.md 5.3",
     technique="deterministic simulation of the blob store: torn writes (every prefix, zero-filled and old-tail variants), destroyed headers, bit flips, foreign objects, and a memory budget enumerated around the exact expanded size; real zstd as the classifier of 'is a frame'; replayable explicit plans",
-    text="For each generated file the blob written by compress_zstd is subjected to every torn-write prefix (complete for blobs up to 4 KiB, always at every zstd block boundary), the same prefixes zero-filled or followed by the tail of an older object, header destruction, bit flips and replacement, and decompress_zstd is called with every capacity below the exact expanded size E (complete up to 24 KiB / 256 KiB), every structural boundary of the expanded form +-1, E..E+2, E+2^k and seeded values. Workloads include incompressible files > 640 KiB, files that compress better than 258:1, files larger than their expanded form and files whose chunk boundary falls on a 128 KiB zstd block boundary. Oracle: intact blob and capacity >= E gives exactly F; capacity < E gives Err; an object zstd rejects (or the empty object) gives Err; never a panic, never truncated data as Ok; compress_zstd itself must succeed. Single store faults are enumerated completely per workload; workloads are sampled from the seed.",
+    text="For each generated file the blob written by compress_zstd is subjected to every torn-write prefix (complete for blobs up to 4 KiB, always at every zstd block boundary), the same prefixes zero-filled or followed by the tail of an older object, header destruction, bit flips and replacement, and decompress_zstd is called with every capacity below the exact expanded size E (complete up to 24 KiB / 256 KiB), every structural boundary of the expanded form +-1, E..E+2, E+2^k and seeded values; the boundary budgets are repeated right after a successful call with an ample budget on the same thread. Workloads include incompressible files > 640 KiB, files that compress better than 258:1, files larger than their expanded form and files whose chunk boundary falls on a 128 KiB zstd block boundary. Oracle: intact blob and capacity >= E gives exactly F; capacity < E gives Err; an object zstd rejects (or the empty object) gives Err; never a panic, never truncated data as Ok; compress_zstd itself must succeed. Single store faults are enumerated completely per workload; workloads are sampled from the seed.",
     note="Trusted: the zstd C library as classifier of well-formed frames, the harness's byte comparison. Damaged objects that zstd still accepts (no checksum in the bulk API) are not executed/judged. Capacities beyond E + 64 MiB are not explored. Workloads whose fault-free round trip fails are skipped.")
 
 CHECKS["C12"] = dict(
@@ -28,7 +28,7 @@ CHECKS["C12"] = dict(
 CHECKS["C14"] = dict(
     engine="simstore-sched", category="exploration", design_ref="DESIGN.md 5.6",
     technique="deterministic simulation of caller threads: real OS threads under a seeded baton scheduler (random walk / PCT / round robin) that owns every context switch at guarded hook points and call boundaries; sequential reference model; fresh-process reference in opposite order; recorded schedules replay exactly and are minimised",
-    text="Seeded search over schedules of 1-16 real threads calling all public entry points (including both C wrappers and their error paths) on shared and distinct inputs; the scheduler decides at every guarded hook point, at every read/write call of recreate's source and destination, and at call boundaries; every result must be byte-identical to a sequential reference, to a repeat in the same process in the opposite order, and to a fresh process. The thorough tier adds a Miri arm (48 seeds, preemption at basic-block granularity, data-race and uninitialised-read detection) for the pure-Rust entry points. A clean batch is evidence, not proof: interleavings are sampled, and only at the scheduling points named above.",
+    text="Seeded search over schedules of 1-16 real threads calling all public entry points (including both C wrappers and their error paths) on shared and distinct inputs; the scheduler decides at every guarded hook point, at every read/write call of recreate's source and destination, and at call boundaries; every result must be byte-identical to a sequential reference, to a repeat in the same process in the opposite order, to a fresh process, and to the same call on a copy of the input at each of the 8 buffer alignments. The thorough tier adds a Miri arm (48 seeds, cold start: the two threads make the first calls of the process; preemption at basic-block granularity, data-race and uninitialised-read detection) for the pure-Rust entry points. A clean batch is evidence, not proof: interleavings are sampled, and only at the scheduling points named above.",
     note="Trusted: the baton scheduler (one holder at a time), the hook points as the only preemption points (a race window without a hook point is only reachable by the Miri arm), exit codes as error identity.")
 
 CHECKS["C04"] = dict(
@@ -40,7 +40,7 @@ CHECKS["C04"] = dict(
 CHECKS["C08"] = dict(
     engine="simstore-buggify", category="exploration", design_ref="DESIGN.md 5.5",
     technique="deterministic simulation with a cooperative fault point (buggify) at the estimator seam: a guarded hook overwrites a seeded subset of the estimated parameter fields with other emit-able values; oracle = Err or exact reconstruction + parameters re-read equal + plaintext/consumed length unchanged; container level with the perturbation active for every scanner probe; replayable explicit perturbations",
-    text="Seeded search over (stream, parameter vector) pairs: the real estimator runs, then 1-8 fields are replaced by values from the range the estimator can emit (read off its code), with both verify settings and at container level. Any panic, any accepted-but-differently-reconstructed stream, any re-read parameter difference and any dependence of plaintext/consumed length on the estimate is a violation. The product space is sampled, so a clean batch is evidence, not proof.",
+    text="Seeded search over (stream, parameter vector) pairs: the real estimator runs, then 1-8 fields are replaced by values from the range the estimator can emit (read off its code), with both verify settings and at container level. Reconstruction runs on a fresh thread (stored now, read elsewhere later). Any panic, any accepted-but-differently-reconstructed stream, any re-read parameter difference and any dependence of plaintext/consumed length on the estimate is a violation. The product space is sampled, so a clean batch is evidence, not proof.",
     note="Trusted: the emit-able ranges were read off the estimator's code (add-policy limit 0-255 after the recorded fix, chain depth 1-4096, 3-byte distance 0-32768, the candidate hash list, the lazy rows of the zlib tables). Correction size is recorded, not judged.")
 
 NOT_APPLICABLE = {
